@@ -386,3 +386,94 @@ pub fn shrink_tapes(
     }
     best
 }
+
+// ------------------------------------------------------------------ size ladder
+/// Deterministic "size ladder": one check per exact size, `reps` pseudo-random
+/// cases each, so that *every* number of functions in the range is exercised in
+/// every run (the random tier draws sizes, and a change keyed on one size between
+/// the boundary values may never be drawn).  The tapes are a pure function of
+/// (seed, size, repetition); no shrinking: the case that fails is the replay (its
+/// size is the point).
+pub struct Ladder {
+    pub stats: Stats,
+    pub sizes: (usize, usize),
+    pub failure: Option<Failure>,
+}
+
+fn ladder_tapes(lens: &[usize], seed: u64, n: usize, rep: u64) -> Vec<Vec<u16>> {
+    let mut x = seed ^ (n as u64).wrapping_mul(0x9E37_79B9_7F4A_7C15) ^ rep.wrapping_mul(0xD6E8_FEB8_6659_FD93);
+    let mut next = move || {
+        // splitmix64
+        x = x.wrapping_add(0x9E37_79B9_7F4A_7C15);
+        let mut z = x;
+        z = (z ^ (z >> 30)).wrapping_mul(0xBF58_476D_1CE4_E5B9);
+        z = (z ^ (z >> 27)).wrapping_mul(0x94D0_49BB_1331_11EB);
+        z ^ (z >> 31)
+    };
+    lens.iter().map(|l| (0..*l).map(|_| (next() >> 24) as u16).collect()).collect()
+}
+
+pub fn size_ladder(prop: &str, sizes: &[usize], reps: u64, seed: u64, workers: usize, make: &(dyn Fn(usize) -> Box<dyn Check> + Sync), known: KnownFn) -> Ladder {
+    let total = Mutex::new(Stats::default());
+    let failure: Mutex<Option<(usize, Failure)>> = Mutex::new(None);
+    let next = AtomicU64::new(0);
+    let stop = AtomicBool::new(false);
+    std::thread::scope(|sc| {
+        for _ in 0..workers.max(1) {
+            let (total, failure, next, stop) = (&total, &failure, &next, &stop);
+            sc.spawn(move || {
+                let mut stats = Stats::default();
+                loop {
+                    let i = next.fetch_add(1, Ordering::Relaxed) as usize;
+                    if i >= sizes.len() || stop.load(Ordering::Relaxed) {
+                        break;
+                    }
+                    let n = sizes[i];
+                    let check = make(n);
+                    let lens = check.tape_lens();
+                    for rep in 0..reps {
+                        let tapes = ladder_tapes(&lens, seed, n, rep);
+                        let r = guarded(check.as_ref(), &tapes, true);
+                        let dec = r.decoded.clone().unwrap_or(Value::Null);
+                        stats.evaluations += 1;
+                        stats.executions += r.executions;
+                        if r.nontrivial {
+                            stats.nontrivial.insert(r.hash);
+                        }
+                        for l in r.labels {
+                            *stats.labels.entry(format!("ladder:{l}")).or_insert(0) += 1;
+                        }
+                        let mut fatal = None;
+                        for v in &r.violations {
+                            if v.prop == prop {
+                                if let Some(key) = known(v, &dec) {
+                                    *stats.known.entry(key).or_insert(0) += 1;
+                                } else if fatal.is_none() {
+                                    fatal = Some(v.clone());
+                                }
+                            } else {
+                                *stats.other_props.entry(v.prop.clone()).or_insert(0) += 1;
+                            }
+                        }
+                        if let Some(mut v) = fatal {
+                            v.msg = format!("size ladder, exactly {n} functions: {}", v.msg);
+                            let mut f = failure.lock().unwrap();
+                            // keep the smallest failing size (deterministic report)
+                            if f.as_ref().map_or(true, |(m, _)| n < *m) {
+                                *f = Some((n, Failure { check: format!("size-ladder:{}", check.name()), violation: v, tapes: tapes.clone(), decoded: dec.clone() }));
+                            }
+                            stop.store(true, Ordering::Relaxed);
+                            break;
+                        }
+                    }
+                }
+                total.lock().unwrap().merge(stats);
+            });
+        }
+    });
+    Ladder {
+        stats: total.into_inner().unwrap(),
+        sizes: (sizes.first().copied().unwrap_or(0), sizes.last().copied().unwrap_or(0)),
+        failure: failure.into_inner().unwrap().map(|(_, f)| f),
+    }
+}
